@@ -85,6 +85,17 @@ type Options struct {
 
 // Main runs the jobs according to the mode (parent / worker / replay) and never returns.
 func Main(run *ev.Run, jobs []Job, opt Options) {
+	if only := os.Getenv("VERIF_ONLY"); only != "" && run.Replay == "" {
+		// debugging aid: restrict the run to the scenarios whose name contains the given text (never exhaustive then)
+		var sel []Job
+		for _, j := range jobs {
+			if strings.Contains(j.Name, only) {
+				sel = append(sel, j)
+			}
+		}
+		jobs = sel
+		opt.NotExhaustive = true
+	}
 	if run.Replay != "" {
 		replay(run, jobs)
 		return
